@@ -681,9 +681,11 @@ impl DrawExecutor {
         let x_radius = (self.get_resolution().width >> 6).min((x2 - x1) / 2);
         let y_radius = x_radius.min((y2 - y1) / 2);
 
-        let x_off = [0, 12539 * x_radius / 32767, 23170 * x_radius / 32767, 30273 * x_radius / 32767, x_radius];
+        // the products are taken in i64: x2 < x1 gives a negative radius as large as the distance (30273 * r overflowed i32)
+        let scale = |k: i64, r: i32| (k * r as i64 / 32767) as i32;
+        let x_off = [0, scale(12539, x_radius), scale(23170, x_radius), scale(30273, x_radius), x_radius];
 
-        let y_off = [y_radius, 30273 * y_radius / 32767, 23170 * y_radius / 32767, 12539 * y_radius / 32767, 0];
+        let y_off = [y_radius, scale(30273, y_radius), scale(23170, y_radius), scale(12539, y_radius), 0];
         let xc = x2 - x_radius;
         let yc = y2 - y_radius;
 
